@@ -476,28 +476,41 @@ def run(rep):
             rep.check(not v, "R13.c", rel, "Grid.data.setter", "data setter stores a copy of the argument",
                       f"`{ast.unparse(s.value)[:60]}` may share the caller's buffer", line=s.lineno)
     cp = mod.func("Grid.clip")
-    sl = None
-    for s in ast.walk(cp):
-        if isinstance(s, ast.Assign) and isinstance(s.targets[0], ast.Attribute) and s.targets[0].attr == "data" and isinstance(s.value, ast.Subscript):
-            sl = s
-    spa = [n for n in ast.walk(cp) if isinstance(n, ast.Call) and isinstance(n.func, ast.Attribute) and n.func.attr == "set_parent_attributes"]
-    if sl is None or not spa:
-        rep.violation("R13.c", rel, "Grid.clip", "clip slices the parent data and records the bounds", "pattern not found", line=cp.lineno)
+    # on the evaluated paths: the data given to the clipped grid is self._data[r0:r1+1, c0:c1+1] and set_parent_attributes records
+    # the same four bounds (compared as expressions, so `r0:r0+nrows` with nrows = r1-r0+1 is the same slice)
+    cpaths = [p_ for p_ in pq.PEval().run(cp) if p_.how in ("return", "end")]
+    okcl, detcl, undcl = bool(cpaths), "", None
+    from ..formula import Canon as _Canon
+    for p_ in cpaths:
+        dat = [e for e in p_.effects if e.kind == 'attr' and e.target.endswith(".data") and pq.call_named(e.val, "getitem")]
+        spa_ = [e for e in p_.effects if e.kind == 'call' and pq.call_named(e.val, ".set_parent_attributes")]
+        if len(dat) != 1 or len(spa_) != 1:
+            undcl = f"{len(dat)} data assignment(s) from a slice, {len(spa_)} set_parent_attributes call(s)"
+            continue
+        base, idx = dat[0].val[2]
+        if not (pq.same(base, "self._data") or pq.same(base, "self.data")):
+            okcl, detcl = False, f"the clipped data are taken from {_show(base)[:40]}"
+            continue
+        if not (idx[0] == 'tuple' and len(idx[1]) == 2 and all(pq.call_named(x, "slice") and x[2][2] == ('sym', 'None') for x in idx[1])):
+            undcl = f"index form {_show(idx)[:80]}"
+            continue
+        rec = spa_[0].val[2][2:] if len(spa_[0].val[2]) >= 6 else None
+        if rec is None or len(rec) != 4:
+            undcl = "arguments of set_parent_attributes"
+            continue
+        cn_ = _Canon()
+        try:
+            want = [cn_.ratio(idx[1][0][2][0]), cn_.ratio(idx[1][0][2][1]) - 1, cn_.ratio(idx[1][1][2][0]), cn_.ratio(idx[1][1][2][1]) - 1]
+            got_ = [cn_.ratio(x) for x in rec]
+        except Exception as ex:
+            undcl = f"bounds outside the arithmetic vocabulary ({ex})"
+            continue
+        if want != got_:
+            okcl, detcl = False, f"slice rows {want[0]}..{want[1]}, columns {want[2]}..{want[3]}; recorded {[str(x) for x in got_]}"
+    if undcl and okcl:
+        rep.undecided("R13.c", rel, "Grid.clip", "parent bookkeeping records the row/column bounds of the slice", undcl, line=cp.lineno)
     else:
-        idx = sl.value.slice
-        names = []
-        if isinstance(idx, ast.Tuple) and len(idx.elts) == 2 and all(isinstance(x, ast.Slice) for x in idx.elts):
-            for x in idx.elts:
-                lo = ast.unparse(x.lower) if x.lower else None
-                up = x.upper
-                upn = None
-                if isinstance(up, ast.BinOp) and isinstance(up.op, ast.Add) and const_value(up.right) == 1:
-                    upn = ast.unparse(up.left)
-                names += [lo, upn]
-        got = [ast.unparse(a) for a in spa[0].args[1:]]
-        rep.check(names == got and None not in names and dotted(sl.value.value) in ("self._data", "self.data"), "R13.c", rel, "Grid.clip",
-                  "parent bookkeeping records the row/column bounds of the slice [r0:r1+1, c0:c1+1]",
-                  f"slice bounds {names}, recorded {got}", line=sl.lineno)
+        rep.check(okcl, "R13.c", rel, "Grid.clip", "parent bookkeeping records the row/column bounds of the slice [r0:r1+1, c0:c1+1] of self._data", detcl, line=cp.lineno)
     # clip finds its corner cells with coord2cell: the clauses of C07 about that kernel and its wrapper are obligations here too
     from ..core import borrow
     nb_ = borrow(rep, "C07", "R13.e", "Grid.clip's corner lookup: the coord2cell kernel and wrapper clauses decided for C07 (inside test, numbering, -1 outside)",
